@@ -267,6 +267,13 @@ class URLInfo(object):
 
             new_hostname = normalize_hostname(new_hostname)
 
+            try:
+                # Case folding or IDNA mapping may have produced a
+                # numeric spelling (0X7F.0.0.1, 0x7f。0。0。1)
+                new_hostname = normalize_ipv4_address(new_hostname)
+            except ValueError:
+                pass
+
             if any(char in new_hostname for char in FORBIDDEN_HOSTNAME_CHARS):
                 raise ValueError('Invalid hostname: {}'
                                  .format(ascii(hostname)))
